@@ -73,6 +73,17 @@ CHECKS['C10'] = dict(
     text='Per scale pair (quick: 6x6 boundary pairs, thorough: all 361) x sign class of the dividend, Decimal and integer forms: zero divisor <=> DivisionByZero / None; every returned (r,f) has f <= max(p,q) and, with both operands re-expressed at scale max(p,q), x - r is an integer multiple of y as polynomials (using the equalities the path recorded), |r| < |y|, r zero or of the sign of x - which characterises the truncated remainder uniquely; the only other failure is the overflow signal of the stepwise loop, reachable only when p < q and 10^(q-p) x overflows; checked_rem has no panic edge. No summary and no lemma is needed (only truncating-division terms occur).',
     note=TB + 'A defect found here (i128::MIN % -1 panics) is repaired by a fix: commit.')
 
+CHECKS['C17'] = dict(
+    category='other', design_ref='DESIGN.md section 4 (R-FWD, R-SIB), section 5 C17',
+    technique='forwarder-shape rule on MIR (resolved callee, argument origins, result flow) for all reference / assign / reversed forms; ' + ABSINT + ' for the integer-operand siblings',
+    text='(a) all 657 reference forms of the 12 operator traits, the 5 compound assignments, the 9 reversed equality impls and the 2 string conversions are pure forwarders to their base impl (exactly the same function, panics included; a + b forwarded as b + a is accepted for Add/CheckedAdd only, whose oracle is symmetric). (b) every integer-operand base impl (9 types, both positions) of +,-,*,/,% and checked variants, div_rounded, ==, partial_cmp is compared per scale cell with the oracle of the Decimal x Decimal form applied to (i,0): same value, same scale for + and -, same failure class, with the documented multiplication short-cut exception. Category "other": one open known finding (int/int div_rounded accepts n > 18 while the Decimal form panics).',
+    note=TB + 'summaries R (C05) and W (C16, contract U).')
+CHECKS['C20'] = dict(
+    category='other', design_ref='DESIGN.md section 4 (R-PROFILE, R-CONFIG-DIFF, R-UNSAFE), section 5 C20',
+    technique='inventory of profile-dependent check sites on MIR extracted with overflow checks and debug assertions ON + ' + ABSINT + ' deciding for each reached site whether its failure edge is feasible; MIR equality between feature configurations; who-may-call rule for unsafe',
+    text='CLAUSE decided: the operations of C01-C05, C08, C10, C14-C16 (arithmetic, comparison, rounding, integer conversion, unary, wide helpers). Every overflow assert, every call of an inherit-overflow-checks core function (<i128 as Add>::add, abs, pow, ...) and every debug_assert reached by the ~4 500 (quick) / ~24 000 (thorough) cells of those properties has an infeasible failure edge in every cell, hence the release build - which omits the check - computes the same result; a feasible edge would be reported as "panics in dev, wraps in release". Function bodies are identical MIR with and without feature packed; unsafe operations are confined to the audited parser helpers. NOT decided: the 141 sites in float conversion, parser, formatting, gcd and the unsigned 256-bit kernels (listed as assumptions in the evidence).',
+    note='Trusted: rustc (absent UB the optimisation level does not change results); ' + TB + 'The 98 silent-wrap sites found by this check are repaired by a fix: commit.')
+
 NOT_APPLICABLE = {
     'C07': 'Display/parse round trip is a value-level property of run-time digit strings across two algorithms (core::fmt and a byte parser); no structural clause that is both necessary and checkable without executing or symbolically solving; see DESIGN.md section 7.',
     'C12': 'Bit-exact float rounding of Decimal -> f64/f32 over 2^127 x 19 inputs: no sound static abstract domain in reach relates the produced bit pattern to the nearest float; see DESIGN.md section 7.',
